@@ -124,6 +124,23 @@ type State struct {
 	writes *writeList // possible writes to fields seen so far on the path
 	cells  *cellList  // last value stored to local variable cells on the path
 	preds  *predList  // block entered from which predecessor (latest first)
+	rets   *retList   // values returned by inlined calls (single result)
+}
+
+type retList struct {
+	fr   *Frame
+	call ssa.Value
+	val  Ref
+	next *retList
+}
+
+func (s State) ret(fr *Frame, call ssa.Value) (Ref, bool) {
+	for r := s.rets; r != nil; r = r.next {
+		if r.fr == fr && r.call == call {
+			return r.val, true
+		}
+	}
+	return Ref{}, false
 }
 
 type predList struct {
@@ -244,6 +261,9 @@ type Spec struct {
 	EscapeMatters func(t *Tracer, fr *Frame, mc *ssa.MakeClosure) bool
 	MaxPaths int
 	MaxDepth int
+	// InlineHelpers descends into unexported functions of the root's package
+	// (extracted helpers), unless the call's events say Stop.
+	InlineHelpers bool
 	// Eval may decide a branch condition by constant propagation (used by the
 	// TABLE rules that fix one input to a constant); known=false leaves both
 	// directions open.
@@ -266,6 +286,7 @@ type Tracer struct {
 	Init    func(t *Tracer)
 	cur     State // state at the instruction being classified (for path-sensitive Resolve)
 	cellMemo map[ssa.Value]*cellInfo
+	interest map[*ssa.Function]int // 0 unknown, 1 yes, 2 no
 }
 
 type cellInfo struct {
@@ -441,6 +462,8 @@ func (t *Tracer) execIf(fr *Frame, i *ssa.If, st State, k func(State, []Ref)) {
 	key, neg, lhs, cst := t.condKey(fr, i.Cond, st)
 	dirs := []bool{true, false}
 	if c, ok := constBool(i.Cond); ok {
+		dirs = []bool{c}
+	} else if c, ok := constBool(t.Resolve(fr, i.Cond).V); ok {
 		dirs = []bool{c}
 	} else if v, ok := t.evalCond(fr, i.Cond); ok {
 		dirs = []bool{v}
@@ -626,6 +649,12 @@ func (t *Tracer) Resolve(fr *Frame, v ssa.Value) Ref {
 		case *ssa.MakeInterface:
 			v = x.X
 			continue
+		case *ssa.Call:
+			if rv, ok := t.cur.ret(fr, x); ok && rv.V != nil {
+				fr, v = rv.Fr, rv.V
+				continue
+			}
+			return Ref{fr, v}
 		case *ssa.Phi:
 			// path-sensitive: the edge the current path came in over
 			if from, ok := t.cur.predOf(fr, x.Block().Index); ok {
@@ -717,13 +746,13 @@ func (t *Tracer) execCall(fr *Frame, c ssa.CallInstruction, st State, k func(Sta
 				fn := mc.Fn.(*ssa.Function)
 				if !t.onStack(fr, fn) {
 					nf := t.newFrame(Frame{Fn: fn, Parent: fr, Site: c, Clo: mc, CloFr: tgt.Fr, Args: t.resolveArgs(fr, com.Args), Async: isGo})
-					t.execFn(nf, st, func(st2 State, _ []Ref) { k(st2) })
+					t.execFn(nf, st, func(st2 State, rets []Ref) { k(t.withRet(st2, fr, c, rets)) })
 					return
 				}
 			}
 			if f, ok := tgt.V.(*ssa.Function); ok && t.isRepo(f) && t.inline(fr, c, f) && !t.onStack(fr, f) {
 				nf := t.newFrame(Frame{Fn: f, Parent: fr, Site: c, Args: t.resolveArgs(fr, com.Args), Async: isGo})
-				t.execFn(nf, st, func(st2 State, _ []Ref) { k(st2) })
+				t.execFn(nf, st, func(st2 State, rets []Ref) { k(t.withRet(st2, fr, c, rets)) })
 				return
 			}
 		}
@@ -757,7 +786,7 @@ func (t *Tracer) execCall(fr *Frame, c ssa.CallInstruction, st State, k func(Sta
 			if mc, ok := com.Value.(*ssa.MakeClosure); ok { // direct call of a literal closure
 				nf.Clo, nf.CloFr = mc, fr
 			}
-			t.execFn(nf, st, func(st2 State, _ []Ref) { k(st2) })
+			t.execFn(nf, st, func(st2 State, rets []Ref) { k(t.withRet(st2, fr, c, rets)) })
 			return
 		}
 	}
@@ -852,10 +881,19 @@ func (t *Tracer) isRepo(f *ssa.Function) bool {
 }
 
 func (t *Tracer) inline(fr *Frame, c ssa.CallInstruction, f *ssa.Function) bool {
-	if t.Spec.Inline == nil {
-		return false
+	if t.Spec.Inline != nil && t.Spec.Inline(t, fr, c, f) {
+		return true
 	}
-	return t.Spec.Inline(t, fr, c, f)
+	if t.Spec.InlineHelpers {
+		if f.Parent() != nil {
+			return true
+		}
+		top := TopLevel(t.Root)
+		if f.Pkg != nil && top.Pkg != nil && f.Pkg == top.Pkg && f.Object() != nil && !f.Object().Exported() && fr.Depth < 5 {
+			return !isLogCall(c.Common()) && t.interesting(f, 0)
+		}
+	}
+	return false
 }
 
 func (t *Tracer) combs(callee *types.Func) map[int]Comb {
@@ -925,4 +963,81 @@ func (t *Tracer) foldIntD(fr *Frame, v ssa.Value, depth int) (int64, bool) {
 		}
 	}
 	return 0, false
+}
+
+
+// withRet records the (single) value an inlined call returned on this path.
+func (t *Tracer) withRet(st State, fr *Frame, c ssa.CallInstruction, rets []Ref) State {
+	v, ok := c.(ssa.Value)
+	if !ok || len(rets) != 1 || rets[0].V == nil {
+		return st
+	}
+	st.rets = &retList{fr: fr, call: v, val: rets[0], next: st.rets}
+	return st
+}
+
+
+// interesting reports whether f, its closures or (transitively) the
+// unexported helpers of its package it calls contain an instruction the
+// rule classifies as an event: only such helpers are worth descending into.
+func (t *Tracer) interesting(f *ssa.Function, depth int) (res bool) {
+	if t.interest == nil {
+		t.interest = map[*ssa.Function]int{}
+	}
+	switch t.interest[f] {
+	case 1:
+		return true
+	case 2:
+		return false
+	}
+	t.interest[f] = 2 // cycles: assume no until shown otherwise
+	defer func() {
+		if res {
+			t.interest[f] = 1
+		}
+	}()
+	probe := func(g *ssa.Function) (hit bool) {
+		defer func() {
+			if recover() != nil {
+				hit = true // be conservative: descend
+			}
+		}()
+		fr := &Frame{Fn: g, ID: -1}
+		for _, b := range g.Blocks {
+			for _, in := range b.Instrs {
+				if t.Spec.Classify != nil && len(t.Spec.Classify(t, fr, in)) > 0 {
+					return true
+				}
+				if _, ok := in.(*ssa.If); ok && t.Spec.Eval != nil {
+					return true // constant propagation may decide branches inside the helper
+				}
+				if i, ok := in.(*ssa.If); ok && t.Spec.Branch != nil {
+					if len(t.Spec.Branch(t, fr, i, true)) > 0 || len(t.Spec.Branch(t, fr, i, false)) > 0 {
+						return true
+					}
+				}
+			}
+		}
+		return false
+	}
+	for _, g := range WithClosures(f) {
+		if probe(g) {
+			return true
+		}
+	}
+	if depth > 4 {
+		return false
+	}
+	for _, g := range WithClosures(f) {
+		for _, call := range callsIn(g) {
+			sf := call.Common().StaticCallee()
+			if sf == nil || sf.Pkg != f.Pkg || sf.Object() == nil || sf.Object().Exported() || sf == f {
+				continue
+			}
+			if t.interesting(sf, depth+1) {
+				return true
+			}
+		}
+	}
+	return false
 }
